@@ -33,7 +33,11 @@ type rec struct {
 	extCalls int
 }
 
-func (r *rec) StartUpdateCrl(m *crlreader.CRLMetaInfo) error { r.started = true; r.meta = *m; return nil }
+func (r *rec) StartUpdateCrl(m *crlreader.CRLMetaInfo) error {
+	r.started = true
+	r.meta = *m
+	return nil
+}
 func (r *rec) InsertRevokedCertificate(e *crlreader.CRLEntry) error {
 	r.entries = append(r.entries, *e.RevokedCertificate)
 	return nil
